@@ -1096,6 +1096,15 @@ def eval_binary(ctx, rep, cases, mdl):
         rep.case(key=("binary", view, tuple(case["args"]), case["diff"]), nontrivial=(nh >= 2 and nl >= 4),
                  sample=dict(op="binary", args=case["args"], diff=case["diff"][:600]) if case["id"] % 97 == 3 and not case["sbs"] else None)
         rep.count(f"binary:{view}")
+        lk = [q[1] for q in case["fl"].parts if q[0] == "ph"]
+        rk = [q[1] for q in case["fr"].parts if q[0] == "ph"]
+        for cond, name in (("np" in lk, "np-in-left-format"), ("nm" in rk, "nm-in-right-format"),
+                           (len(set(lk)) == 2 or len(set(rk)) == 2, "both-in-one-column"),
+                           (len(lk) != len(set(lk)) or len(rk) != len(set(rk)), "repeated-placeholder"),
+                           (not case["fl"].parts or not case["fr"].parts, "empty-format"),
+                           (not lk or not rk, "format-without-placeholder")):
+            if cond:
+                rep.count(f"binary:fmt:{name}:{view}")
         rep.count(f"binary:hunks", nh)
         rep.count(f"binary:lines", nl)
         if case["blank"]:
